@@ -629,7 +629,7 @@ func (sc *serverConn) handleStreams() {
 loop:
 	for {
 		releaseHandled()
-		verifGauge(len(strms), openStreams, len(closedRing))
+		verifGauge(len(strms), openStreams, len(closedRing), int64(sc.currentWindow), sc.clientWindow)
 		verifTick(verifTickStreamLoop)
 
 		select {
